@@ -200,7 +200,7 @@ func (r *Replayer) Replay(h *Harness, f *Finding, tag string) (*ReplayOutcome, e
 	if timeout == "" && instrumented {
 		timeout = "4s"
 	}
-	attempts := 1
+	attempts := atoiDef(h.Opts["replay_attempts"], 1) // harnesses whose native reproduction depends on the runtime (sync.Pool reuse) ask for several
 	if f.Kind == "race" {
 		attempts = 12
 	}
